@@ -18,6 +18,12 @@ DT = {
     'float32': ('real', True, True, Fraction(1, 10 ** 5)),
     'float16': ('real', True, False, Fraction(1, 100)),
     'float128': ('real', True, False, Fraction(1, 10 ** 12)),
+    # non-native byte order: legal dtypes of tensor spaces, NOT in _BLAS_DTYPES (complex ones cannot be built)
+    '>f8': ('real', True, False, Fraction(1, 10 ** 12)),
+    '>f4': ('real', True, False, Fraction(1, 10 ** 5)),
+    '>f2': ('real', True, False, Fraction(1, 100)),
+    '>i4': ('int', False, False, Fraction(0)),
+    '>i8': ('int', False, False, Fraction(0)),
     'complex128': ('cx', True, True, Fraction(1, 10 ** 12)),
     'complex64': ('cx', True, True, Fraction(1, 10 ** 5)),
     'int64': ('int', False, False, Fraction(0)),
@@ -42,6 +48,15 @@ ALIAS = {            # (x1, x2, out) as indices into the three allocated element
 
 
 # ------------------------------------------------------------------ literals per carrier
+EXOTIC = ('float16', 'float128', '>f8', '>f4', '>f2')      # floating, legal, never BLAS
+
+
+def dtinfo(dtype):
+    """Coq literal of what the dispatch can see of a dtype: character code of dtype.char, native byte order."""
+    d = np.dtype(dtype)
+    return '(mkdt %d %s)' % (ord(d.char), C.b(bool(d.isnative)))
+
+
 def lit(carrier, v):
     """Coq literal of one entry; NaN -> None in the poisoned carriers."""
     if carrier in ('real', 'int'):
@@ -175,7 +190,8 @@ def lincomb_case(rng, dtype, shape, layouts, alias, a, b, poison, full=False):
         if k in poisoned:
             arr[...] = np.nan
         el = space.element(arr)
-        assert el.data is arr, 'element() copied the array'
+        # (NumPy copies when the dtype is not native-endian: the element then owns a contiguous copy)
+        assert el.data is arr or not np.dtype(dtype).isnative, 'element() copied the array'
         els.append(el)
     flags = [flags_of(els[i].data) for i in (ix1, ix2, iout)]
     before = [np.array(e.data, copy=True) for e in els]
@@ -209,7 +225,7 @@ def lincomb_case(rng, dtype, shape, layouts, alias, a, b, poison, full=False):
         return lits(carrier, flat)
 
     term = ('mkL %s %s %s (%d, %d, %d)%%nat %d %s %s [%s] [%s]'
-            % (C.b(fl), C.b(bdt),
+            % (C.b(fl), dtinfo(dtype),
                '[' + '; '.join('(%s, %s)' % (C.b(c), C.b(f)) for c, f in flags) + ']',
                ix1, ix2, iout, n if sized else 0, lit(carrier, pa), lit(carrier, pb),
                '; '.join(buf_term(k, before[k], True) for k in range(3)),
@@ -241,7 +257,7 @@ class Sets(object):
     def put(self, prefix, dtype, res, check_fmt=CHECK, ctype_fmt='caseL %s'):
         term, desc, key, carrier, tol = res
         n = int(np.prod(desc['shape']))
-        name = '%s_%s_%s' % (prefix, dtype, carrier)
+        name = '%s_%s_%s' % (prefix, dtype.replace('>', 'be_').replace('<', 'le_'), carrier)
         if prefix == 'sp':          # one check term (tolerance) per set
             name += '_e%d' % len(str(tol.denominator))
         if n >= BIG and desc.get('whole_array_in_coq', True):
@@ -281,7 +297,7 @@ def lincomb_cases(rng, tier, S):
         for shape in ([(3,), (120,)] if base == 'int' else [(3,), (100,)]):
             for alias in ALIAS:
                 # (the non-main floating dtypes share the code path of float64 / complex128 below 50000 entries: a sample in quick)
-                for a, b in (pairs if (not quick or main or base == 'int') else rng.sample(pairs, 8)):
+                for a, b in (pairs if (not quick or main or dtype in ('int64', 'int32')) else rng.sample(pairs, 6)):
                     run(shape, alias, a, b)
         # B. the BLAS regime (and its borders).  The decision tree is shared with the fallback
         #    regime (covered exhaustively in A); here the three BLAS primitives, the regime rule and
@@ -299,7 +315,7 @@ def lincomb_cases(rng, tier, S):
                             run(shape, alias, a, b, want_blas=rng.random() < 0.7)
         # B2. >= 50000 entries where BLAS must NOT be used: strided / mixed-order arrays, non-BLAS dtypes
         #     (a wrong dispatch leaves `out` unchanged or pairs entries in different orders)
-        if dtype in ('float64', 'complex128', 'float16', 'float128') or (bdt and not quick):
+        if dtype in ('float64', 'complex128') + EXOTIC or (bdt and not quick):
             plan = []
             if dtype == 'float64':
                 plan += [((50000,), lay, al) for lay in ('SSS', 'SCC', 'CSC', 'CCS') for al in ALIAS]
@@ -307,7 +323,7 @@ def lincomb_cases(rng, tier, S):
                          for al in (ALIAS if not quick else ('distinct', 'out_is_x1', 'out_is_x2'))]
             elif dtype == 'complex128':
                 plan += [((50000,), lay, al) for lay in ('SSS', 'CCS') for al in ALIAS]
-            elif dtype in ('float16', 'float128'):
+            elif dtype in EXOTIC:
                 plan += [((50000,), 'CCC', al) for al in ALIAS]
                 if not quick:
                     plan += [((250, 200), 'FFF', al) for al in ALIAS]
@@ -316,15 +332,15 @@ def lincomb_cases(rng, tier, S):
             for shape, lay, alias in plan:
                 a, b = rng.choice([pr for pr in pairs if pr[0] != 0 and pr[1] != 0])
                 S.put('lin', dtype, lincomb_case(rng, dtype, shape, lay, alias, a, b,
-                                                 'unused' if (base != 'int' and rng.random() < 0.4 and dtype not in ('float16', 'float128')) else None))
+                                                 'unused' if (base != 'int' and rng.random() < 0.4 and dtype not in EXOTIC) else None))
         # C. shape sweep
-        for shape in small + med:
+        for shape in ([(3,), (3, 4), (100,), (1000,)] if (quick and dtype.startswith('>')) else small + med):
             for alias in ALIAS:
                 for a, b in rng.sample(pairs, (2 if main else 1) if quick else 6):
                     run(shape, alias, a, b)
         # D. poisoned runs (floating dtypes): NaN in every buffer the call must not read
         #    (`out` when it is not an operand, the unused third buffer), and NaN inside an operand
-        if base in ('real', 'cx') and dtype not in ('float16', 'float128'):
+        if base in ('real', 'cx') and dtype not in EXOTIC:
             for shape in [(3,), (100,)] + ([(3, 4), (10, 10)] if not quick else []):
                 for alias in ALIAS:
                     for a, b in (pairs if main else rng.sample(pairs, 6)):
@@ -440,7 +456,7 @@ class Ctx(object):
             arr = np.full(arr.shape, np.nan if self.poison else 0, dtype=complex if arr.dtype.kind == 'c' else float)
         self.init.append(arr)
         self.flags.append(flags_of(t.data))
-        self.bdt.append(DT[str(t.data.dtype)][2])
+        self.bdt.append(dtinfo(t.data.dtype))
         return len(self.objs) - 1
 
     def term(self, el, fresh=False):
@@ -476,7 +492,7 @@ class Ctx(object):
         else:
             self.init.append(np.full(t.data.shape, np.nan if self.poison else 0, dtype=kind))
         self.flags.append((True, t.data.ndim <= 1))
-        self.bdt.append(DT[str(t.data.dtype)][2])
+        self.bdt.append(dtinfo(t.data.dtype))
         return '(Leaf %d)' % (len(self.objs) - 1)
 
 
@@ -775,7 +791,7 @@ def space_case(rng, recipe, op, poison=False, special=False):
     real_ids = [k for k, o in enumerate(ctx.objs) if o is not None]
     final = [(np.asarray(o.data) if o is not None else ctx.init[k]) for k, o in enumerate(ctx.objs)]
     term = ('mkW %s %s %s (%s) [%s] %s [%s] %d'
-            % (coq_space(recipe), '[' + '; '.join(C.b(v) for v in ctx.bdt) + ']',
+            % (coq_space(recipe), '[' + '; '.join(ctx.bdt) + ']',
                '[' + '; '.join('(%s, %s)' % (C.b(cf), C.b(ff)) for cf, ff in ctx.flags) + ']',
                wop, '; '.join(compress(carrier, a) for a in ctx.init),
                '[' + '; '.join('%d' % k for k in real_ids) + ']%nat',
@@ -822,7 +838,7 @@ def bcast_case(rng, child, n, k, inplace, poison=False):
     real_ids = [j for j, o in enumerate(ctx.objs) if o is not None]
     final = [(np.asarray(o.data) if o is not None else ctx.init[j]) for j, o in enumerate(ctx.objs)]
     term = ('mkW %s %s %s (WBcast %s %s %s %s %s %s) [%s] %s [%s] 0'
-            % (coq_space(recipe), '[' + '; '.join(C.b(v) for v in ctx.bdt) + ']',
+            % (coq_space(recipe), '[' + '; '.join(ctx.bdt) + ']',
                '[' + '; '.join('(%s, %s)' % (C.b(cf), C.b(ff)) for cf, ff in ctx.flags) + ']',
                C.b(inplace), BK[k], coq_space(child), tparts, ty, ttmps,
                '; '.join(compress(carrier, a) for a in ctx.init),
@@ -862,7 +878,8 @@ def space_cases(rng, tier, S):
     quick = tier == 'quick'
     fixed = [('T', 'float64', (3,)), ('T', 'float64', (100,)), ('D', 'float64', (4, 5)), ('D', 'float64', (10, 10)),
              ('T', 'complex128', (3,)), ('D', 'complex128', (101,)), ('T', 'int64', (4,)), ('T', 'int32', (150,)),
-             ('T', 'float32', (6,)),
+             ('T', 'float32', (6,)), ('T', '>f8', (5,)), ('D', '>f8', (101,)), ('T', '>i4', (4,)),
+             ('P', [('T', '>f8', (3,)), ('T', 'float64', (2,))]),
              ('P', [('T', 'float64', (3,)), ('T', 'float64', (2,))]),
              ('P', [('T', 'float64', (3,))] * 3),
              ('P', [('P', [('D', 'float64', (2, 2)), ('T', 'float64', (100,))]), ('T', 'float64', (4,))]),
@@ -1316,6 +1333,9 @@ def _probe(out, key, what, kind, **params):
     out.append(C.Probe(bool(ok), key, what, replay, detail))
 
 
+LARGE_DTYPES = ['float64', 'float32', 'float16', 'float128', 'complex128', 'complex64', '>f8', '>f4', '>f2', '<f8']
+
+
 def _spacekind(recipe):
     if recipe[0] == 'T':
         return 'tensor-' + DT[recipe[1]][0]
@@ -1323,6 +1343,53 @@ def _spacekind(recipe):
         return 'discr-' + DT[recipe[1]][0]
     nested = any(c[0] == 'P' for c in recipe[1])
     return 'pspace-nested' if nested else 'pspace'
+
+
+def _large_family(out, rng, quick, full=False):
+    """>= 50000 entries with every layout / dtype for which BLAS is or is not applicable (whole array compared
+    against a*x1+b*x2 on copies; old out NaN-filled when it is not an operand).  The dtype list includes the
+    legal exotic ones: float16, longdouble, non-native byte order ('>f8', '>f4', '>f2'), explicit '<f8'."""
+    big_shapes = [((50000,), ['CCC', 'SSS', 'SCC', 'CSC', 'CCS']), ((50001,), ['CCC', 'CCS']),
+                  ((250, 200), ['CCC', 'FFF', 'CFC', 'FCF', 'CCF', 'FFC', 'SFF', 'CCS', 'FFS'])]
+    for dtype in LARGE_DTYPES:
+        base, fl, bdt, tol = DT[str(np.dtype(dtype))]
+        pairs = [pr for pr in (CX_PAIRS if base == 'cx' else REAL_PAIRS)]
+        swapped = dtype in ('>f8', '>f4', '>f2', '<f8', 'float16', 'float128')
+        for shape, lays in big_shapes:
+            if swapped and quick and not full:
+                lays = lays[:1] + lays[-1:]
+            for lay in lays:
+                for alias in ALIAS:
+                    for nan_out in ((False, True) if alias in ('distinct', 'x1_is_x2') else (False,)):
+                        a, b = rng.choice([pr for pr in pairs if pr[0] != 0 and pr[1] != 0] if swapped else pairs)
+                        kind = 'blas-ok' if (bdt and set(lay) in ({'C'}, {'F'})) else 'blas-not-applicable'
+                        _probe(out, 'lincomb-large-%s-%s-%s-%s%s' % (kind, lay, alias, dtype, '-nan-out' if nan_out else ''),
+                               'space.lincomb(%r, x1, %r, x2, out) on %s%r layouts %s, alias %s (whole array vs a*x1+b*x2 on copies)'
+                               % (a, b, dtype, shape, lay, alias),
+                               'lincomb', dtype=dtype, shape=list(shape), layouts=lay, alias=alias, a=a, b=b,
+                               seed=rng.randint(0, 10 ** 6), nan_out=nan_out)
+    # big-endian integers go through the direct regime at every size
+    for dtype in ('>i4', '>i8'):
+        for shape in ((50000,), (120,)):
+            for alias in ALIAS:
+                a, b = rng.choice([(1, 1), (2, -1), (-1, 3)])
+                _probe(out, 'lincomb-large-int-%s-%s' % (alias, dtype),
+                       'space.lincomb(%r, x1, %r, x2, out) on %s%r, alias %s' % (a, b, dtype, shape, alias),
+                       'lincomb', dtype=dtype, shape=list(shape), layouts='CCC', alias=alias, a=a, b=b,
+                       seed=rng.randint(0, 10 ** 6), nan_out=False)
+
+
+def search(rng, broken):
+    """The translator or a proof broke: run the large-array family over the full dtype / layout / alias
+    list (and the integer and data-operand families through the thorough probes of the driver) to obtain a
+    concrete input on which the property itself fails."""
+    known = C.load_findings(PID)
+    found = []
+    _large_family(found, rng, quick=False, full=True)
+    for pr in found:
+        if not pr.ok and pr.key not in known:
+            return pr
+    return None
 
 
 def probes(rng, tier):
@@ -1350,24 +1417,7 @@ def probes(rng, tier):
                            'other operands bit-identical' % (a, b, dtype, shape, lay, alias),
                            'lincomb', dtype=dtype, shape=list(shape), layouts=lay, alias=alias, a=a, b=b,
                            seed=rng.randint(0, 10 ** 6), nan_out=bool(nan_out))
-    # 1b. >= 50000 entries with every layout / dtype for which BLAS is or is not applicable (whole array
-    #     compared against a*x1+b*x2 on copies; old out NaN-filled when it is not an operand)
-    big_shapes = [((50000,), ['CCC', 'SSS', 'SCC', 'CSC', 'CCS']), ((50001,), ['CCC', 'CCS']),
-                  ((250, 200), ['CCC', 'FFF', 'CFC', 'FCF', 'CCF', 'FFC', 'SFF', 'CCS', 'FFS'])]
-    for dtype in ['float64', 'float32', 'float16', 'float128', 'complex128', 'complex64']:
-        base, fl, bdt, tol = DT[dtype]
-        pairs = [pr for pr in (CX_PAIRS if base == 'cx' else REAL_PAIRS)]
-        for shape, lays in big_shapes:
-            for lay in lays:
-                for alias in ALIAS:
-                    for nan_out in ((False, True) if alias in ('distinct', 'x1_is_x2') else (False,)):
-                        a, b = rng.choice(pairs)
-                        kind = 'blas-ok' if (bdt and set(lay) in ({'C'}, {'F'})) else 'blas-not-applicable'
-                        _probe(out, 'lincomb-large-%s-%s-%s-%s%s' % (kind, lay, alias, dtype, '-nan-out' if nan_out else ''),
-                               'space.lincomb(%r, x1, %r, x2, out) on %s%r layouts %s, alias %s (whole array vs a*x1+b*x2 on copies)'
-                               % (a, b, dtype, shape, lay, alias),
-                               'lincomb', dtype=dtype, shape=list(shape), layouts=lay, alias=alias, a=a, b=b,
-                               seed=rng.randint(0, 10 ** 6), nan_out=nan_out)
+    _large_family(out, rng, quick)
     # 1c. integer dtypes around the 100-entry switch, all alias patterns, scalars that use both operands
     for dtype in ('int64', 'int32'):
         for n in (99, 100, 101, 200):
